@@ -9,6 +9,27 @@ props = [json.loads(l)["id"] for l in open(os.path.join(VERIF, "properties.jsonl
 TRUST = "rustc's MIR construction and callee resolution; the pv model table of std items (pv/models.py); std/unicode-normalization behave as documented; allocation failure and stack exhaustion out of scope"
 
 CLAIMS = {
+    "C01": dict(
+        technique="panic-site inventory over the resolved call graph + abstract interpretation of every exported function with unconstrained arguments (loop widening, interval / byte-offset-provenance / `< chars().count()` facts); asserts must be proved, slice bounds must be byte offsets of the sliced string, unwraps must be unreachable on None; coverage of the inventory is enforced",
+        category="other",
+        text="Every Assert terminator and every call that can panic in the library code reachable from the public API is inventoried from MIR and must be visited and discharged by the interpretation of some exported function for ALL argument values (not sampled inputs); loops must be iterator-controlled or have a proved stepping counter; recursion/unsafe/abort are excluded structurally. Undocumented panics inside std/unicode-normalization, OOM and stack exhaustion are assumed away.",
+        ref="§4 C01",
+    ),
+    "C02": dict(
+        technique="loop-transducer extraction of StringClass::allows over a 15-letter alphabet (derived property × context answer), payload provenance of the error, interval partition of get_context_rule and of each rule's own-test against the set of contextual code points computed from the folded tables",
+        category="other",
+        text="The per-character behaviour of allows is extracted as a one-state transducer that is exact for all labels (first offender wins, code-point positions, the property just computed, rule invoked with the whole label and the same index) and compared letter by letter with RFC 8264 §4; the registry clause is decided for all 2^32 code points by interval partition.",
+        ref="§4 C02",
+    ),
+    "C04": dict(technique="pipeline extraction: abstract interpretation with the rule implementations as Ok/Err oracles and content tags for strings; extracted path set compared with the RFC 8265 §3 pipeline", category="other", text="All paths of prepare/enforce of both username profiles are enumerated (which rule ran on which string, every failure exit and the error it returns, the string returned) and must equal the specified pipeline; covers every input string because the methods observe strings only through the leaf rules.", ref="§4 C04"),
+    "C05": dict(technique="pipeline extraction (as C04) for OpaqueString prepare/enforce against RFC 8265 §4.2", category="other", text="Same engine as C04: validation on the untouched input, space mapping, NFC, non-empty, nothing else; the leaves' own semantics are C12/C02/C14.", ref="§4 C05"),
+    "C06": dict(technique="pipeline extraction of Nickname prepare/enforce and of the closure handed to stabilize, against RFC 8266 §2", category="other", text="enforce must be stabilize(input, closure) returned unchanged and the closure body must be the whole rule set (validate, space rule, NFKC, non-empty; no case mapping). Fixed point / iteration bound are C13, the space rule C12.", ref="§4 C06"),
+    "C07": dict(technique="pipeline extraction of the four compare bodies and the static-form forwarders", category="other", text="compare must be enforce(a)? ; enforce(b)? ; content equality of the two results (first operand's error first, never Ok after an error); Nickname via stabilize with the comparison rule set on both operands; the static forms forward (s1, s2) in order.", ref="§4 C07"),
+    "C08": dict(technique="must-pass-through check on the extracted enforce pipelines (own-class validation precedes only whitelisted transforms; Nickname returns only stabilize's fixed point)", category="other", text="PARTLY CLAIMED: structural necessary conditions only. NOT decided: whether to_lowercase/NFC/NFKC (library Unicode data) can produce DISALLOWED/UNASSIGNED characters from valid ones, and idempotence of the transform chain for every string.", ref="§4 C08"),
+    "C09": dict(technique="loop-automaton extraction of satisfy_bidi_rule over the 23 bidi classes, has_rtl class set, wrapper decision table, product-construction language comparison with the DFA of RFC 5893's six conditions; bidi table compared with UnicodeData 16.0.0 on every code point", category="other", text="The composed language (no R/AL/AN or Bidi rule satisfied) is compared with the RFC for ALL class words at once; a difference yields a shortest distinguishing word. One known finding (D3, interior NSM in RTL labels, enshrined by the repository's tests) is keyed by a language K; any deviation outside K is a violation.", ref="§4 C09"),
+    "C10": dict(technique="copy-on-first-change discipline: trigger class set, untouched-input branch, prefix/suffix split, one-state loop transducer over case classes read from DerivedCoreProperties.txt", category="other", text="Decides for all strings that every character with a lowercase mapping is mapped (whole mapping) wherever it stands: the trigger set must contain every changing class and the loop must be stateless. std's predicates are bound to the UCD properties by their documentation.", ref="§4 C10"),
+    "C11": dict(technique="table = <wide>/<narrow> decompositions of UnicodeData 16.0.0 (every code point), idempotence and scalar-ness of values, lookup semantics, copy-on-first-change discipline over {mapped, other}", category="other", text="Data clause decided on every code point; code clause decided for all strings by the extracted one-state transducer whose trigger is computed from the mapper itself.", ref="§4 C11"),
+    "C12": dict(technique="password rule: first-change discipline over {N,S,Z}; nickname rule: scan DFA + rebuild transducers extracted from MIR, composed and compared with the RFC 8266 §2.3 reference transducer by product exploration; Zs table compared with UnicodeData 16.0.0", category="other", text="Equivalence with the reference mapping is decided for ALL words over the class alphabet (the code can only distinguish non-space / U+0020 / other Zs — anything finer is reported); a difference yields a shortest distinguishing word.", ref="§4 C12"),
     "C13": dict(
         technique="abstract interpretation of stabilize's MIR with the rule function as a 3-answer oracle (E/=/≠); exhaustive path enumeration compared with the RFC 8264 §7 contract",
         category="other",
@@ -27,6 +48,8 @@ CLAIMS = {
         text="PARTLY CLAIMED. Decided completely for the two pinned inputs: all 47 tables are searchable (L2) and equal the UCD on every code point (L5). Decided for all inputs only as necessary structural conditions of the generators (pending run live on loop exhaustion, sort dominates merge, every accumulated field consumed by generate_code). NOT decided: values computed by run compression / gap tracking for arbitrary entry sequences.",
         ref="§4 C15",
     ),
+    "C16": dict(technique="effect / ownership analysis: statics and type fields (Freeze, Send, Sync, size, Copy from the type checker), deny-listed callees over the resolved call-graph closure of the exported API, static-form forwarders by abstract interpretation; positive-control crate for every zero-count rule", category="other", text="No hidden state (immutable Freeze statics except lazy cells of zero-sized profiles), single-valued profile/class types, no effectful callee reachable, static forms forward unchanged: every exported function is then a pure function of its arguments for all histories and schedules.", ref="§4 C16"),
+    "C17": dict(technique="field wiring and name table by abstract interpretation with the field parsers as oracles; regex group names vs Captures indexing; line-number discipline by provenance; panic-freedom of the parse paths (TotalWorld)", category="other", text="PARTLY CLAIMED: wiring, name table, selector rules, group names, line numbers and panic-freedom are decided; NOT decided: the languages of the two regular expressions and of ucd_parse::Codepoint::from_str.", ref="§4 C17"),
     "C18": dict(
         technique="abstract interpretation of the 12 hand-written comparison methods over the order-type domain (11 order types × 12 methods, exhaustive), after checking that compared values flow only into comparisons",
         category="other",
@@ -81,7 +104,7 @@ def main():
     print("MANIFEST: %d checks, %d not_applicable" % (len(checks), len(na)))
 
 
-NA = {}
+NA = {"C03": "check still under construction in this session (context-rule decision tables, DESIGN.md §4 C03); its data clauses (VIRAMA/script/joining tables = UCD 6.3.0) are already covered by C15 and the registry clause by C02"}
 
 if __name__ == "__main__":
     main()
